@@ -92,13 +92,27 @@ EncodeU(g, P) == IF Len(P) = 0 THEN <<64>> \o Zeros(EncLen(g, "u") - 1)
 EncodeC(g, P) == IF Len(P) = 0 THEN <<192>> \o Zeros(EncLen(g, "c") - 1)
                  ELSE SetFlags(CoordBytes(g, P[1]), 128 + (IF IsLarger(g, P[2]) THEN 32 ELSE 0))
 
+(* the stream API (SerDes::deserialize of the affine and of the projective type, read from whole *)
+(* and from chunked readers) is the CHECKED decoder on exactly EncLen bytes: errors carry no     *)
+(* category, successes consume the whole encoding; a shorter string is never accepted.           *)
+SerdesMatches(g, form, s, dc) ==
+  IF dc[1] = "err" THEN s.res[1] = "err"
+  ELSE /\ s.res[1] = "ok"
+       /\ s.consumed = EncLen(g, form)
+       /\ (IF s.ty = "aff" THEN AffRep(s.res[2], dc[2]) ELSE GRep(g, s.res[2], dc[2]))
+SerdesAll(g, form, out, dc) ==
+  "serdes" \in DOMAIN out => \A i \in 1..Len(out.serdes) : SerdesMatches(g, form, out.serdes[i], dc)
+
 JudgeDecode(e) ==
   LET g == e.g
       b == e.bytes
       dc == TLCEval(Decode(g, e.form, b, TRUE))
       du == TLCEval(Decode(g, e.form, b, FALSE))
   IN
+  IF Len(b) < EncLen(g, e.form) THEN SerdesAll(g, e.form, e.out, Err("short"))
+  ELSE
   /\ Len(b) = EncLen(g, e.form)
+  /\ SerdesAll(g, e.form, e.out, dc)
   /\ DecMatches(g, e.out.checked, dc)
   /\ DecMatches(g, e.out.unchecked, du)
   \* the function Decode and the staged machine agree on this input (cheap stages only when
